@@ -20,6 +20,8 @@ pub enum Rec {
     Break,
     /// `select` succeeded: what it reported
     Select { waker: bool, signal: bool, tty_read: bool, tty_write: bool },
+    /// was the tty registered for writability in the `select` call that just succeeded
+    Interest(bool),
     /// `select` failed: `retry` = Interrupted / WouldBlock (the loop continues)
     SelectErr { retry: bool },
     /// a `write` to the tty: bytes offered, bytes accepted (0 = EAGAIN / EINTR)
@@ -80,6 +82,15 @@ pub fn canon(event: &crate::TerminalEvent) -> String {
         },
         _ => format!("o:{event:?}"),
     }
+}
+
+/// is the tty registered for writability in the descriptor sets of `Poll`
+pub(super) fn tty_interest(poll: &super::Poll, tty: impl std::os::fd::AsFd) -> bool {
+    use std::os::fd::AsRawFd;
+    poll.registred
+        .get(&tty.as_fd().as_raw_fd())
+        .map(|e| e.is_writable())
+        .unwrap_or(false)
 }
 
 /// all records since the last call, in order
